@@ -73,6 +73,101 @@ def State.iterAll (cfg : Cfg) (ops : PolicyOps P) (o : Oracle) (s : State P) (ba
   let (now, items) := iterDrive cfg.nshards batch keysOf s.map cfg.tti (2 * s.map.length + 2) s.now inter {} []
   ({ s with now := now }, items)
 
+/-! ### `IterStream::poll_next` polled by hand while somebody else may hold a shard's write lock
+
+`poll_next` serves the buffer first, ends when `finished`, and otherwise runs the refill future:
+the loop of `refill_buffer` over a LOCAL cursor and a LOCAL buffer, with
+`shard.map.read_async().await` at the top of every loop iteration.  If the shard's write lock is
+held by someone else (e.g. a sync `cache.entry(k)` guard that is kept alive), that await is
+`Pending`: the future is parked in `refill_future` with whatever it has collected so far and
+`poll_next` returns `Pending`.  A later poll resumes the parked future at the same await.  When
+the future completes — on the poll that created it or on a later one, the two `Ready` arms of
+`poll_next` do the same thing — the stream takes over the future's cursor (exactly once),
+its `finished` flag and its batch, and hands out the first item. -/
+
+/-- the refill future run until it completes or is parked at a locked shard:
+    `(local cursor + local buffer, parked?)`.  `locked i` = shard `i`'s write lock is held by
+    somebody else during this poll. -/
+def refillLoopL (nshards batch : Nat) (keysOf : Nat → List Nat) (m : List (Nat × Entry)) (now : Nat)
+    (tti : Option Nat) (locked : Nat → Bool) : Nat → IterSt → IterSt × Bool
+  | 0, it => (it, false)
+  | fuel + 1, it =>
+    if it.shard < nshards ∧ it.buffer.length < batch then
+      if locked it.shard then (it, true)
+      else
+        let keys := keysOf it.shard
+        if it.seen ≥ keys.length then
+          refillLoopL nshards batch keysOf m now tti locked fuel { it with shard := it.shard + 1, seen := 0 }
+        else
+          let needed := batch - it.buffer.length
+          let chunk := (keys.drop it.seen).take needed
+          refillLoopL nshards batch keysOf m now tti locked fuel
+            { it with buffer := it.buffer ++ liveOf m now tti chunk, seen := it.seen + chunk.length }
+    else (it, false)
+
+/-- `IterStream`: `cur` = the stream's own `cursor` / `buffer` / `finished`; `inflight` = the
+    parked refill future (`refill_future = Some(..)`): its local cursor and local buffer -/
+structure StreamSt where
+  cur : IterSt := {}
+  inflight : Option IterSt := none
+deriving Repr, DecidableEq
+
+inductive Poll where
+  | pending
+  | item (k v : Nat)
+  | done
+deriving Repr, DecidableEq
+
+/-- a `Ready((batch, new_cursor, finished_flag))` arm of `poll_next` (both arms are this code):
+    `cursor = new_cursor; finished = finished_flag; buffer.extend(batch); buffer.pop_front()` -/
+def streamAbsorb (nshards : Nat) (st : StreamSt) (f : IterSt) : StreamSt × Poll :=
+  let fin := decide (f.shard ≥ nshards)
+  match st.cur.buffer ++ f.buffer with
+  | x :: rest => ({ cur := { shard := f.shard, seen := f.seen, buffer := rest, finished := fin }, inflight := none }, .item x.1 x.2)
+  | [] => ({ cur := { shard := f.shard, seen := f.seen, buffer := [], finished := fin }, inflight := none }, .done)
+
+/-- the refill future a poll runs: the parked one, or a new one created from a copy of the
+    stream's cursor with an empty local buffer -/
+def StreamSt.start (st : StreamSt) : IterSt :=
+  match st.inflight with
+  | some f => f
+  | none => { shard := st.cur.shard, seen := st.cur.seen, buffer := [], finished := false }
+
+/-- one `poll_next` call -/
+def streamPoll (nshards batch : Nat) (keysOf : Nat → List Nat) (m : List (Nat × Entry)) (now : Nat)
+    (tti : Option Nat) (locked : Nat → Bool) (st : StreamSt) : StreamSt × Poll :=
+  match st.cur.buffer with
+  | x :: rest => ({ st with cur := { st.cur with buffer := rest } }, .item x.1 x.2)
+  | [] =>
+    if st.cur.finished then (st, .done)
+    else
+      let r := refillLoopL nshards batch keysOf m now tti locked (nshards + m.length + 1) st.start
+      if r.2 then ({ st with inflight := some r.1 }, .pending)
+      else streamAbsorb nshards st r.1
+
+/-- poll once per element of `locks` (the lock situation during that poll) until the stream
+    ends: `(stream, items yielded so far, ended?)` -/
+def streamRun (nshards batch : Nat) (keysOf : Nat → List Nat) (m : List (Nat × Entry)) (now : Nat)
+    (tti : Option Nat) : StreamSt → List (Nat → Bool) → List (Nat × Nat) → StreamSt × List (Nat × Nat) × Bool
+  | st, [], acc => (st, acc, false)
+  | st, l :: ls, acc =>
+    match streamPoll nshards batch keysOf m now tti l st with
+    | (st', .item k v) => streamRun nshards batch keysOf m now tti st' ls (acc ++ [(k, v)])
+    | (st', .pending) => streamRun nshards batch keysOf m now tti st' ls acc
+    | (st', .done) => (st', acc, true)
+
+/-- nobody holds any shard lock -/
+def noLock : Nat → Bool := fun _ => false
+
+/-- `iter_stream_with_batch_size(batch)` polled under the lock situations `locks` (arbitrary
+    Pending / resume points) and then `n` more times with no lock held -/
+def State.streamAll (cfg : Cfg) (ops : PolicyOps P) (o : Oracle) (s : State P) (batch : Nat)
+    (locks : List (Nat → Bool)) (n : Nat) : State P × List (Nat × Nat) × Bool :=
+  let s := s.flush cfg ops o
+  let keysOf := fun i => s.shardKeys cfg o.ord i
+  let r := streamRun cfg.nshards (max batch 1) keysOf s.map s.now cfg.tti {} (locks ++ List.replicate n noLock) []
+  (s, r.2)
+
 /-- `SnapshotIter` consumed to the end: shard by shard, the keys present when the shard is
     reached, each looked up with `fetch` (so hits refresh the idle clock and are recorded). -/
 def snapDrive (cfg : Cfg) : State P → List Nat → Option (Nat × Nat) → List (Nat × Nat) → State P × List (Nat × Nat)
